@@ -159,6 +159,8 @@ def _c18(tier):
         return Run(name, 'anyid.cpp', defs, covers=3 if mk == 0 else 5, optional_covers=() if mk == 0 else (1, 2), bounds=text, **kw)
     laws = 'laws (equivalence, strict weak order, incomparability = equality, hash agreement, copies/moves/assignment of ids are the same id)'
     return [R('anyid_laws_storage', 1, 0, _AI % ('value storage with == and <', laws)),
+            R('anyid_laws_storage_freedig', 1, 0, _AI % ('value storage with == and <', laws) + '; here the digest is NOT constrained to be a function of the stored value (different source types stored as the same value)', {'FREEDIG': None}),
+            R('anyid_hash_storage_freedig', 1, 2, _AI % ('value storage', 'std::unordered_map dispatcher: 2 registered ids, dispatch by a 3rd; 8-bit digests') + '; digest not a function of the stored value' + reg + how(0), dict(dv(0), FREEDIG=None), budget_s=900),
             R('anyid_laws_nostorage', 0, 0, _AI % ('EmptyAnyStorage', laws)),
             R('anyid_laws_nostorage_d128', 0, 0, _AI % ('EmptyAnyStorage', laws) + '; the Digester returns a 128-bit digest (wider than size_t), both halves symbolic', {'DIGW': 128}),
             R('anyid_laws_anystorage', 2, 0, _AI % ('value storage constructible from a value of ANY type (std::any-like), with == and <', laws)),
